@@ -31,7 +31,7 @@ CHECKS = {
          "always rejected for the same constant). BIP173/350 vectors are evaluated in the kernel. The executable model (with the generated "
          "network table) is compared with addr_base58_to_pubkeyhash, deserialize_address, Address.parse, addr_bech32_to_pubkeyhash, Key(wif), "
          "HDKey(xkey), HDKey.from_wif on EVERY single substitution/insertion/deletion/transposition of sampled valid strings of every class and "
-         "network, plus random damage, case changes, truncation and padding. Strings with a CORRECT checksum over a payload that is not one of the class (wrong length, wrong compression flag, key field contradicting the version, unknown version) are generated for addresses, WIFs and extended keys. Found and fixed through this check: F05, F06, F27, F28, F69 (WIF payload of any length accepted), F70 (xprv carrying a public key accepted), F107 (BIP38 flag bytes with reserved bits). The four BIP38 vectors are opened with their passphrase as valid strings, as single-edit mutants and as re-checksummed payloads BIP38 does not define. Every (witness version, program length 1..41, 64, 65) with a valid checksum and the q-insertion strings are swept. Listed: F47 (encoder mistakes some unusual-length programs for scripts)."),
+         "network, plus random damage, case changes, truncation and padding. Strings with a CORRECT checksum over a payload that is not one of the class (wrong length, wrong compression flag, key field contradicting the version, unknown version) are generated for addresses, WIFs and extended keys. Found and fixed through this check: F05, F06, F27, F28, F69 (WIF payload of any length accepted), F70 (xprv carrying a public key accepted), F107 (BIP38 flag bytes with reserved bits), F128 (Base58 address checksum behind an assert: a subprocess with python -O is part of the run), F129 (addr_to_pubkeyhash with a named encoding answered None). The four BIP38 vectors are opened with their passphrase as valid strings, as single-edit mutants and as re-checksummed payloads BIP38 does not define. Every (witness version, program length 1..41, 64, 65) with a valid checksum and the q-insertion strings are swept. Listed: F47 (encoder mistakes some unusual-length programs for scripts)."),
    design_ref='DESIGN.md §5 C11',
    note=COMMON_NOTE + "Cryptographic residue (not a theorem): a corrupted Base58Check string is rejected unless the 4-byte SHA-256d checksums collide (2^-32). "
         "convertbits round trip and HRP-character substitutions are covered by the correspondence run only. A refusal of a string the Spec would accept "
@@ -229,7 +229,7 @@ CHECKS = {
          "failing push, transactions built by one Wallet object and imported as object / raw hex / dict into a second one and sent there, "
          "transaction_delete of sent and stub transactions, close+reopen, new keys) with real wallets (HD legacy / segwit / p2sh-segwit, "
          "single-key, multisig): utxos(), balance(), per-key balances through the open object AND a second Wallet object on the same database, "
-         "in random observation order; stored transactions are reloaded and compared (id, inputs, outputs, raw). Wallets with another default account, re-listed (also spent) outpoints, small sequence numbers, held key objects and held transaction objects sent again are part of the histories. Found and fixed: F17, F23, F24, F38, F85 (outputs filed under account 0), F86 (sequence 0 reloaded as 0xffffffff), F87 (bulk-created key objects not registered), F96 (a stale object sent again un-spent outputs), F103 (delete freed outputs a replacement still consumes), F104 / F105 (account 0 read as no account; sweep dropped the account), F110 (raw import replaced lock time 0), F117 (a deleted parent stored again listed its spent change), F119 / F120 (an unspent output counts for the account of its key: balance, unspent list, input selection, rescan). Stored transactions of status new (send_to(broadcast=False) + store()) are checked directly: balance = unspent list = per-key balances on two wallet objects. The ledger machine admits replacements, held unsent objects sent later and re-stored transactions (send guard without the unspent / fresh-input conditions, delete frees only what no other stored transaction consumes); wallets with two accounts run one machine per account."),
+         "in random observation order; stored transactions are reloaded and compared (id, inputs, outputs, raw). Wallets with another default account, re-listed (also spent) outpoints, small sequence numbers, held key objects and held transaction objects sent again are part of the histories. Found and fixed: F17, F23, F24, F38, F85 (outputs filed under account 0), F86 (sequence 0 reloaded as 0xffffffff), F87 (bulk-created key objects not registered), F96 (a stale object sent again un-spent outputs), F103 (delete freed outputs a replacement still consumes), F104 / F105 (account 0 read as no account; sweep dropped the account), F110 (raw import replaced lock time 0), F117 (a deleted parent stored again listed its spent change), F125 (transaction_delete with a second wallet of the same database holding the transaction id), F119 / F120 (an unspent output counts for the account of its key: balance, unspent list, input selection, rescan). Stored transactions of status new (send_to(broadcast=False) + store()) are checked directly: balance = unspent list = per-key balances on two wallet objects. The ledger machine admits replacements, held unsent objects sent later and re-stored transactions (send guard without the unspent / fresh-input conditions, delete frees only what no other stored transaction consumes); wallets with two accounts run one machine per account."),
    design_ref='DESIGN.md §5 C08',
    note=COMMON_NOTE + "One network and one account per wallet; SQL semantics and two simultaneously open SQLAlchemy sessions are outside the model (a hand-off continues on the receiving object). Outputs on non-leaf keys of an HD wallet are not generated."),
  'C07': dict(
@@ -276,7 +276,7 @@ CHECKS = {
          "ceremonies over all signer sequences (incl. a cosigner signing twice) with hand-off as object, dict and raw hex: after every step "
          "the number of signatures and verify() must equal the model, the redeem script of the spend must be the sorted-key script, and "
          "send(broadcast=True) must push iff at least m distinct cosigners signed. Found and fixed: F24 (dict hand-off), F25 (raw hand-off "
-         "broadcast a 2-of-2 with one signature), F50 (dict hand-off dropped sequence numbers), F57 (multi-input dict hand-off signed in the wrong key order), F100 (ceremonies beyond the threshold through dict hand-offs duplicated and lost signatures; 2-of-5 in the quick tier), F113 (eleven and more cosigners: reopened wallet loaded the cosigner wallets by name), F122 (a stored unsigned multisig spend read back as 1-of-n); listed: F26 (raw hand-off loses partial signatures; never an under-signed broadcast)."),
+         "broadcast a 2-of-2 with one signature), F50 (dict hand-off dropped sequence numbers), F57 (multi-input dict hand-off signed in the wrong key order), F100 (ceremonies beyond the threshold through dict hand-offs duplicated and lost signatures; 2-of-5 in the quick tier), F113 (eleven and more cosigners: reopened wallet loaded the cosigner wallets by name), F122 (a stored unsigned multisig spend read back as 1-of-n), F126 (dict hand-off lost outputs without an address; some spends carry a data output), F127 (dict hand-off to a cosigner wallet that has not seen the spent outputs; in some ceremonies only the creator's wallet knows them); listed: F26 (raw hand-off loses partial signatures; never an under-signed broadcast)."),
    design_ref='DESIGN.md §5 C10',
    note=COMMON_NOTE + "ECDSA validity of the individual signatures is C02/C13; here the signer set, its order-independence and the threshold are decided. n up to 15 is covered by the theorems (any n), the run stops at n = 5."),
 }
